@@ -460,6 +460,12 @@ def _squeeth_program(rp, p, nb, row_of, slot, emit):
             lo -= 2 * j * 61 * sp  # distinct ranges per vault
             hi = lo + w * sp
             pos_arg = {"lo": lo, "hi": hi}
+            if shock and shock["bar"] + 1 <= nb - 1 and rp.random() < 0.5:
+                # liquidity provided again on exactly the same range after the price shock (the vault may have been liquidated
+                # and its LP redeemed by then): whatever became of the old position, the new liquidity is a holding
+                rb = rp.randint(shock["bar"] + 1, nb - 1)
+                emit(rb, rp.choice(["before_bar", "on_bar", "after_bar"]), "uni.add_by_tick", pool,
+                     {"lo": lo, "hi": hi, "base": {"f": "wallet:OSQTH", "x": "0.3"}, "quote": rp.choice(["0.5", "3"])})
             # mint first so that there is oSQTH to provide, or use wallet oSQTH
             lb = b0 if b0 < 0 else rp.randint(0, b0)
             emit(lb, "initialize" if lb < 0 else "before_bar", "uni.add_by_tick", pool,
